@@ -1383,6 +1383,56 @@ pub fn run(ctx: &mut Ctx) {
             }
             _ => ctx.oracle("embedded_issuer", "MessageBuilder::sign", &g.name, false, "signing failed"),
         }
+        // several distinct signers in one message: OPS #i names signer #i, and so does the signature it
+        // is paired with (the trailing signatures come in reverse order)
+        {
+            let same_v: Vec<&GenKey> = gens.iter().filter(|o| o.sec.version() == g.sec.version()).collect();
+            let me0 = same_v.iter().position(|o| std::ptr::eq(*o, g)).unwrap_or(0);
+            if same_v.len() >= 3 && me0 % ctx.pick(5, 1) == 0 {
+                let trio: Vec<&GenKey> = (0..3).map(|d| same_v[(me0 + d) % same_v.len()]).collect();
+                let built = guarded(|| {
+                    let mut rng = ChaCha8Rng::seed_from_u64(seed ^ 3);
+                    let mut b = MessageBuilder::from_bytes("", data.to_vec());
+                    for k in &trio {
+                        b.sign(&k.sec.primary_key, Password::empty(), k.sec.primary_key.hash_alg());
+                    }
+                    b.to_vec(&mut rng).ok()
+                });
+                if let Ok(Some(bytes)) = built {
+                    let pk = packets_of(&bytes);
+                    let ops: Vec<&Vec<u8>> = pk.iter().filter(|(t, _)| *t == Tag::OnePassSignature).map(|(_, b)| b).collect();
+                    let sigs: Vec<&Vec<u8>> = pk.iter().filter(|(t, _)| *t == Tag::Signature).map(|(_, b)| b).collect();
+                    let input = format!("signers=[{}]", trio.iter().map(|k| fp_str(&k.sec.fingerprint())).collect::<Vec<_>>().join(","));
+                    let mut ok = ops.len() == 3 && sigs.len() == 3;
+                    let mut detail = format!("{} OPS, {} signatures", ops.len(), sigs.len());
+                    for (i, body) in ops.iter().enumerate().take(3) {
+                        let (fp, kid) = (trio[i].sec.fingerprint(), trio[i].sec.legacy_key_id());
+                        let good = match body.first() {
+                            Some(3) => body.len() >= 13 && body[body.len() - 9..body.len() - 1] == *kid.as_ref(),
+                            Some(6) => body.len() >= 34 && body[body.len() - 33..body.len() - 1] == *fp.as_bytes(),
+                            _ => false,
+                        };
+                        if !good {
+                            ok = false;
+                            detail.push_str(&format!("; OPS #{i} does not name signer #{i}: {}", hx(body)));
+                        }
+                        // the signature this OPS is paired with: position n-1-i
+                        if let Some(sb) = sigs.get(2 - i) {
+                            if let Ok(h) = PacketHeader::from_parts(pgp::types::PacketHeaderVersion::New, Tag::Signature, PacketLength::Fixed(sb.len() as u32)) {
+                                if let Ok(Ok(sg)) = guarded(|| Signature::try_from_reader(h, &sb[..])) {
+                                    if !sg.issuer_fingerprint().iter().all(|f| **f == fp) || sg.issuer_fingerprint().is_empty() {
+                                        ok = false;
+                                        detail.push_str(&format!("; signature paired with OPS #{i} names {:?}", sg.issuer_fingerprint()));
+                                    }
+                                }
+                            }
+                        }
+                    }
+                    ctx.oracle("embedded_issuer", "MessageBuilder::sign x3 (one-pass signature packets of distinct signers)", &input, ok, &detail);
+                    ctx.stat("sig:multi_signer_ops");
+                }
+            }
+        }
         // signatures with hand-chosen issuer subpackets, to drive match_identity through every branch
         // same-version keys to try the signatures against: the signer itself and a window of others
         let same: Vec<&GenKey> = gens.iter().filter(|o| o.sec.version() == g.sec.version()).collect();
@@ -1511,6 +1561,61 @@ pub fn run(ctx: &mut Ctx) {
     for g in &gens {
         for s in &g.public.public_subkeys {
             enc_keys.push(EncKey { name: g.name.clone(), sub: s });
+        }
+    }
+    // several recipients in one message, named and hidden ones mixed in every order: the k-th PKESK
+    // names (or hides) the k-th recipient, nobody else's identity
+    for start in (0..enc_keys.len().saturating_sub(2)).step_by(ctx.pick(7, 2)) {
+        let trio = &enc_keys[start..start + 3];
+        for mask in 0u8..8 {
+            for pv in [3u8, 6] {
+                let seed: u64 = ctx.rng.gen();
+                let msg = guarded(|| {
+                    let mut rng = ChaCha8Rng::seed_from_u64(seed);
+                    macro_rules! add {
+                        ($b:expr) => {{
+                            let mut b = $b;
+                            for (i, ek) in trio.iter().enumerate() {
+                                if mask & (1 << i) != 0 {
+                                    b.encrypt_to_key_anonymous(&mut rng, &ek.sub.key).ok()?;
+                                } else {
+                                    b.encrypt_to_key(&mut rng, &ek.sub.key).ok()?;
+                                }
+                            }
+                            b.to_vec(&mut rng).ok()
+                        }};
+                    }
+                    if pv == 3 {
+                        add!(MessageBuilder::from_bytes("", b"c13".to_vec()).seipd_v1(&mut rng, SymmetricKeyAlgorithm::AES128))
+                    } else {
+                        add!(MessageBuilder::from_bytes("", b"c13".to_vec()).seipd_v2(&mut rng, SymmetricKeyAlgorithm::AES128, pgp::crypto::aead::AeadAlgorithm::Ocb, pgp::crypto::aead::ChunkSize::default()))
+                    }
+                });
+                let Ok(Some(msg)) = msg else {
+                    ctx.stat("pkesk_multi:encrypt_failed");
+                    continue;
+                };
+                let ps = pkesks_of(&msg);
+                let input = format!("recipients=[{}] hidden_mask={mask:03b} pv={pv}", trio.iter().map(|e| fp_str(&e.sub.fingerprint())).collect::<Vec<_>>().join(","));
+                let mut ok = ps.len() == 3;
+                let mut detail = format!("{} PKESK packets", ps.len());
+                for (i, (p, ek)) in ps.iter().zip(trio.iter()).enumerate() {
+                    let anon = mask & (1 << i) != 0;
+                    let good = match (p, anon) {
+                        (PublicKeyEncryptedSessionKey::V3 { id, .. }, false) => *id == ek.sub.legacy_key_id(),
+                        (PublicKeyEncryptedSessionKey::V3 { id, .. }, true) => id.is_wildcard(),
+                        (PublicKeyEncryptedSessionKey::V6 { fingerprint, .. }, false) => fingerprint.as_ref() == Some(&ek.sub.fingerprint()),
+                        (PublicKeyEncryptedSessionKey::V6 { fingerprint, .. }, true) => fingerprint.is_none(),
+                        _ => false,
+                    };
+                    if !good {
+                        ok = false;
+                        detail.push_str(&format!("; PKESK #{i} carries {} (recipient #{i} hidden={anon})", rc_str(p)));
+                    }
+                }
+                ctx.oracle("embedded_recipient", "MessageBuilder::encrypt_to_key / encrypt_to_key_anonymous, several recipients", &input, ok, &detail);
+                ctx.stat("pkesk_multi");
+            }
         }
     }
     let mut all_pkesk: Vec<(PublicKeyEncryptedSessionKey, usize)> = Vec::new();
